@@ -60,10 +60,10 @@ def normalise(fn: ast.FunctionDef) -> Tuple[ast.FunctionDef, List[str]]:
 
 
 def body_wo_doc(fn) -> List[ast.stmt]:
-    b = list(fn.body)
-    if b and isinstance(b[0], ast.Expr) and isinstance(b[0].value, ast.Constant) and isinstance(b[0].value.value, str):
-        b = b[1:]
-    return b
+    """body without docstring and without statements that cannot change the result (pass, assert, constants bound to names never read)"""
+    from ..core import significant_body
+
+    return significant_body(fn)
 
 
 def single_return(fn) -> Optional[str]:
